@@ -22,7 +22,8 @@ from harness import common, parsemodel
 from harness.common import Sym
 
 FRAGS = ['>>> ', '... ', '>>>', '...', 'x = 1', 'print(x)', 'f(', ')', '[', ']', '{', '}', "'", '"', "'''", '"""', '\\', '\\\n',
-         '# xdoctest: +SKIP', '# xdoctest: +REQUIRES(', '# xdoctest: +REQUIRES(a,(b)', '# doctest: +ELLIPSIS', 'def f():', 'class A:',
+         '# xdoctest: +SKIP', '# xdoctest: +REQUIRES(', '# xdoctest: +REQUIRES(a,(b)', '# doctest: +ELLIPSIS',
+         '# XDOCTEST: +REQUIRES(', '# XDoc: +REQUIRES(a,(b)', '# DocTest: +SKIP)', '# XDOC: +SKIP', 'def f():', 'class A:',
          'return', 'if x:', 'else:', 'lambda', 'yield', 'import os', '    ', '\t', '\n', '\n', '\n', '\x0c', '\x0b', '\r', '\x00',
          'Example:', 'Args:', 'Returns:', 'é', '　', '1', 'x', ';', ':', ',', '@', '=', '==', '(' * 30, '[(' * 20, 'text', 'Traceback (most recent call last):',
          '<BLANKLINE>', '  # comment', '$', '?', '`', '!x', 'async def g():', 'await z', 'with a as b:', 'try:', 'except:', 'global x', 'nonlocal y']
